@@ -15,7 +15,7 @@ ID = 'C20'
 LEVEL = 'exploration'
 RUNS = {'quick': 40000, 'thorough': 800000}
 CHUNK = 100
-PROBES = ['fault_no_nested', 'fault_first_decoded', 'fault_first_undecoded', 'fault_two_decoded_kinds', 'fault_failed_result',
+PROBES = ['long_window', 'fault_no_nested', 'fault_first_decoded', 'fault_first_undecoded', 'fault_two_decoded_kinds', 'fault_failed_result',
           'fault_other_thread_real_fault_between', 'launch_empty', 'launch_unsorted_maps', 'launch_equal_addresses',
           'launch_shared_cache', 'launch_unrelated_inside', 'sample_flag_without_record', 'sample_record_without_flag',
           'sample_both', 'sample_neither', 'lost_nested_record', 'nested_composite_in_composite']
@@ -82,6 +82,13 @@ def _sample(rng, tid):
 
 
 def generate(rng, index, tier):
+    if index % 983 == 7:
+        # a launch (or fault, or sample) window holding thousands of unrelated same-thread records before its nested ones
+        n = worlds.LONG_SIZES[(index // 983) % len(worlds.LONG_SIZES)]
+        op = [_launch, _fault, lambda r: _sample(r, 600)][(index // 983) % 3](rng)
+        filler = worlds.op_single(rng, 'MACH_MKRUNNABLE')
+        op['in'] = [dict(filler) for _ in range(n)] + op['in']
+        return {'threads': [{'tid': 600, 'ops': [op]}], 'schedule': [], 'faults': [], 'long': n}
     threads = []
     for ti in range(rng.pick([1, 2, 2, 3])):
         tid = 600 + ti * 7
@@ -117,6 +124,8 @@ def execute(scn):
         stats[k] = stats.get(k, 0) + v
     fired = {}
     table, stream = worlds.build_stream(scn, fired)
+    if scn.get('long'):
+        bump('probe:long_window')
     if fired:
         bump('fault:lost_event', sum(fired.values()))
         bump('probe:lost_nested_record')
